@@ -333,14 +333,14 @@ Definition has_entry (j : nat) (m : list (option st)) : bool :=
 Definition is_recv_entry (c j : nat) (e : event) : bool :=
   match e with ESubRecv c1 m => Nat.eqb c1 c && has_entry j m | _ => false end.
 
-(* subscriber c had taken a snapshot and was not cancelled when Stateable runnable j was started:
-   unless c took ten or more snapshots after that (its channel may have been full when startRunnable
-   broadcast), one of the snapshots it took afterwards has an entry for j *)
+(* subscriber c was not cancelled before Stateable runnable j's Run was invoked: c has taken a
+   snapshot with an entry for j (startRunnable broadcasts the map after storing j's initial state, and
+   a later subscription starts from a map that has the entry) - unless c took ten or more snapshots
+   (its channel may have been full when startRunnable broadcast) *)
 Definition sub_entry_ok (c j : nat) (pre : list event) : bool :=
   match split_at (is_call j) pre with
-  | Some (p, q) =>
-    negb (existsb (is_recv c) p) || existsb (is_cancel c) p
-    || existsb (is_recv_entry c j) q || Nat.leb 10 (count_if (is_recv c) q)
+  | Some (p, _) =>
+    existsb (is_cancel c) p || existsb (is_recv_entry c j) pre || Nat.leb 10 (count_if (is_recv c) pre)
   | None => true
   end.
 
